@@ -248,12 +248,12 @@ def run_sharded(binary, lines, shards, timeout, env=None, cwd=None):
     [t.start() for t in ths]
     [t.join() for t in ths]
     merged = [None] * len(lines)
+    hangs = 0                      # hanging cases isolated so far, over ALL shards
     for i, (rc, o, er) in enumerate(results):
         ol = o.splitlines()
         if rc != 0 or len(ol) != len(chunks[i]):
             # a crash (abort/segfault) inside a shard: re-run that shard line by line
             ol = []
-            hangs = 0
             for ln in chunks[i]:
                 if hangs >= 3:
                     # three hanging cases isolated in this shard already (each is reported as a disagreement): the rest of
